@@ -182,6 +182,24 @@ class World:
         gc.collect()
         return self.start()
 
+    def expire_restart(self):
+        """All clients leave; 30 virtual minutes pass; the server exits by itself (run mode);
+        then it is launched again on the same directory."""
+        assert self.mode == "run"
+        for s in list(self.sessions.values()):
+            s.feed_eof()
+        self.loop.settle()
+        self.sessions = {}
+        t0 = self.loop.time()
+        self.loop.run_until(self.run_task.done, horizon=t0 + 1800 + 120)
+        if not self.run_task.done():
+            raise Stuck("server did not exit 30 minutes after its last client left")
+        self.srv = None
+        self.run_task = None
+        self._new_loop()
+        gc.collect()
+        return self.start()
+
     def kill(self):
         """Process death: drop everything without running any asimap code."""
         self.srv = None
